@@ -842,6 +842,8 @@ def run(ctx, res):
     check_lazy(res, facts)
     check_canon(res, facts)
     check_concat(res, facts)
+    from rules import c17_mle
+    c17_mle.check_mle(res, facts, ctx.tier)
     return {
         "level": "other",
         "explanation": "Expression reconstruction over MIR compared as polynomials (folding kernels of dense/sparse fix_variables and the eq-table), a proof of swap_bits for all 64-bit inputs and admissible windows by abstract interpretation in the GF(2)-affine bit-vector domain, symbolic evaluation of element-wise operator closures, delegation shapes of the derived operators, shape guards (including dense/sparse agreement on relabel windows), an effect rule on lazy iterator adaptors, and constructor typestate of the multivariate sparse polynomial. That iterating the kernels over all rounds equals the hypercube sum for every table size, and hash-map based accumulation order, are NOT decided.",
